@@ -101,8 +101,12 @@ def run_body(h, run, kind):
             # the string form: path_or_source is the source text
             return I.Builtin('splitlines', lambda it2, a, k: I.Opaque('source-lines'))
         if isinstance(obj, Raw):
-            if name in ('strip', 'lower', 'rstrip', 'lstrip'):
+            if name in ('strip', 'lower', 'rstrip', 'lstrip', 'upper', 'casefold', 'expandtabs', 'replace'):
                 return I.Builtin(name, lambda it2, a, k: Raw(name, (obj,) + tuple(a)))
+            if name in ('partition', 'rpartition'):
+                # (head, separator or '', tail): three strings derived from this one
+                return I.Builtin(name, lambda it2, a, k: (Raw(name + '-head', (obj,) + tuple(a)), Raw(name + '-sep', (obj,) + tuple(a)),
+                                                          Raw(name + '-tail', (obj,) + tuple(a))))
             if name == 'startswith':
                 def sw(it2, a, k):
                     key = ('startswith', id(obj) if obj.how == 'raw_line' else (obj.how, id(obj.src[0]) if obj.src else None), a[0])
@@ -140,15 +144,16 @@ def run_body(h, run, kind):
             if isinstance(itv, I.Opaque) and itv.tag == 'numbered-lines':
                 state['start'] = itv.start
                 it.assign(s.target, (i_var, raw), env)
-                state['lines_before'] = list(env.lookup('lines'))
-                state['vars_before'] = {k: env.lookup(k) for k in ('path', 'current_dirs', 'include_dirs', 'base_path') if _has(env, k)}
+                # nothing below depends on how the function names its locals: the output list is the list that is
+                # returned in the end; the variables the loop relies on are those bound, on entry, to a path or a search path
+                state['lists_before'] = {n: (o, list(o)) for n, o in env.vars.items() if isinstance(o, list)}
+                state['vars_before'] = {n: o for n, o in env.vars.items() if _pathish(o)}
                 try:
                     it.exec_block(s.body, env)
                 except I._Continue:
                     pass
-                state['lines_after'] = env.lookup('lines')
-                state['path'] = state['vars_before'].get('path')
-                state['vars_after'] = {k: env.lookup(k) for k in state['vars_before']}
+                state['lists_after'] = {n: (o, list(o)) for n, o in env.vars.items() if isinstance(o, list)}
+                state['vars_after'] = {k: env.vars.get(k) for k in state['vars_before']}
                 return True
         return None
 
@@ -193,6 +198,13 @@ def run_body(h, run, kind):
     it.concrete_method = concrete_method
     res = it.call(h.env.vars['read_lines'], [top], {'include_dirs': [incdir]})
     return dict(result=res, state=state, calls=calls, top=top, incdir=incdir, raw=raw, i=i_var, exists=exists, bools=bools)
+
+
+def _pathish(o):
+    """a file name or a search path (a collection of directory terms)"""
+    if isinstance(o, PathTerm) or o == '<string>':
+        return True
+    return isinstance(o, (list, tuple, set, frozenset)) and any(isinstance(x, PathTerm) for x in o)
 
 
 def _has(env, k):
@@ -246,11 +258,17 @@ def obligations_reader(ctx, h):
                 continue
             v = p.value
             st = v['state']
-            if 'lines_after' not in st:
+            out = None
+            if 'lists_after' in st:
+                out = next((n for n, (o, _) in st['lists_before'].items() if o is v['result']), None)
+            if out is None:
+                # no loop over the numbered source lines that appends to the list returned in the end: the harness cannot
+                # state the splice equation for this shape (tool limit unless the replay shows a failing tree)
                 ctx.add(Obligation('%s/%s/path%d/line-loop-found' % (fn, kind, pi), [], z3.BoolVal(False), 'finite', func=fn, kind='post',
-                                   cover=False, meta={'replay': rp}))
+                                   cover=False, meta={'replay': rp, 'unrecognised': True}))
                 continue
-            added = st['lines_after'][len(st['lines_before']):]
+            added = st['lists_after'][out][1][len(st['lists_before'][out][1]):]
+            expected_file = v['top'] if kind == 'file' else '<string>'
             eff = p.effects
             # provenance: arguments of file-system primitives
             good_dirs = [v['incdir'].key(), ('dirname', ('abspath', v['top'].key()))] if kind == 'file' else [v['incdir'].key(), ('cwd',)]
@@ -271,9 +289,9 @@ def obligations_reader(ctx, h):
                                meta={'replay': rp, 'props': ['C14', 'C10'], 'what': 'read_lines consults a path outside the search rule: %s' % why}))
             # loop invariant: the variables the loop reads (the file name lines are attributed to, the search path) are the
             # same objects after the body, and the search path is an ordered list (first match must be well defined)
-            inv_ok = all(st['vars_after'].get(k) is v for k, v in st['vars_before'].items())
-            cd = st['vars_before'].get('current_dirs')
-            ordered = isinstance(cd, list) and not p.notes.get('set_iterated')
+            inv_ok = all(st['vars_after'].get(k) is v_ or (isinstance(v_, str) and st['vars_after'].get(k) == v_) for k, v_ in st['vars_before'].items())
+            search_paths = [o for o in st['vars_before'].values() if not isinstance(o, (PathTerm, str))]
+            ordered = bool(search_paths) and all(isinstance(o, (list, tuple)) for o in search_paths) and not p.notes.get('set_iterated')
             ctx.add(Obligation('%s/%s/path%d/loop-variables-unchanged-and-search-path-ordered' % (fn, kind, pi), list(p.pc),
                                z3.BoolVal(bool(inv_ok and ordered)), 'INT', func=fn, kind='invariant', cover=False,
                                meta={'replay': rp, 'props': ['C14', 'C15', 'C16', 'C10'],
@@ -303,7 +321,8 @@ def obligations_reader(ctx, h):
             elif len(added) == 1 and isinstance(added[0], I.SObj) and added[0].cls.name == 'Line':
                 ln = added[0]
                 c = ln.fields.get('contents')
-                base_ok = ln.fields.get('file') is st['path'] and ln.fields.get('number') is v['i'] and start_ok
+                base_ok = (ln.fields.get('file') is expected_file or (isinstance(expected_file, str) and ln.fields.get('file') == expected_file)) \
+                    and ln.fields.get('number') is v['i'] and start_ok
                 if c is v['raw']:
                     n_plain += 1
                     ok = base_ok
@@ -315,8 +334,6 @@ def obligations_reader(ctx, h):
                         and sizes[0][1] is c.args[0] and c.args[0].key()[0] == 'join' and c.args[0].key()[1] in good_dirs \
                         and isinstance(c.fmt, str) and c.fmt.split()[0] == 'include_bytes' and c.fmt.count('{}') == 2
                     why = 'the include_bytes line does not carry the path the lookup found and its size'
-                if kind == 'file' and not (st['path'] is v['top']):
-                    ok, why = False, 'lines of a file are not attributed to that file'
             else:
                 ok, why = False, 'unexpected lines appended: %r' % (added,)
             ctx.add(Obligation('%s/%s/path%d/splice' % (fn, kind, pi), list(p.pc), z3.BoolVal(bool(ok)), 'INT', func=fn, kind='post',
